@@ -22,9 +22,28 @@ func (r reader) ReadUint64() (uint64, error) {
 // ReadN returns the next n bytes from the reader or an error if there are not
 // enough left
 func (r reader) ReadN(n uint64) ([]byte, error) {
-	b := make([]byte, n)
-	if _, err := io.ReadFull(r, b); err != nil {
-		return nil, err
+	// The length typically comes from the stream itself and can't be trusted. Read
+	// in steps so that memory is only allocated for data that's actually there.
+	const step = 1 << 20
+	if n <= step {
+		b := make([]byte, n)
+		if _, err := io.ReadFull(r, b); err != nil {
+			return nil, err
+		}
+		return b, nil
+	}
+	var b []byte
+	for n > 0 {
+		l := uint64(step)
+		if n < l {
+			l = n
+		}
+		part := make([]byte, l)
+		if _, err := io.ReadFull(r, part); err != nil {
+			return nil, err
+		}
+		b = append(b, part...)
+		n -= l
 	}
 	return b, nil
 }
